@@ -6,7 +6,7 @@
     PARTIAL: the round-trip theorem parse(print c) = abs c is proved here for the stream-selector
     sub-grammar with an unbounded number of matchers; for the rest of the grammar it is established by the
     correspondence against generator-computed expectations, not by a theorem (see DESIGN.md). *)
-From LogQLV Require Import Base.Bytes Base.FloatX Model.Tables Model.Syntax Model.Parser Proofs.ParserP Proofs.PredP Proofs.PipelineP Proofs.LogRangeP Proofs.QueryP Proofs.UnwrapP Model.Lexer Proofs.LexerP Proofs.LexerTightP Proofs.LexParseP.
+From LogQLV Require Import Base.Bytes Base.FloatX Model.Tables Model.Syntax Model.Parser Proofs.ParserP Proofs.PredP Proofs.PipelineP Proofs.LogRangeP Proofs.QueryP Proofs.UnwrapP Proofs.VecParamP Model.Lexer Proofs.LexerP Proofs.LexerTightP Proofs.LexParseP.
 
 (** every selector {l1 op1 "v1", ..., ln opn "vn"} with any number of matchers, all four operators, any value bytes (regex
     values that compile) and any label names -- whether the lexer classifies a name as Ident or as a keyword (by, on, json,
@@ -159,6 +159,32 @@ Print Assumptions vec_agg_parse.
     (unwrap with or without a conversion function, optional grouping after the operand; op and grouping as validate()
     admits them: [range_validate o None g true]) denotes exactly that operation, unwrap, range, offset and grouping.
     [chain_mid] is [chain_ok] without the end-of-pipeline condition: the pipeline stops in front of `| unwrap`. *)
+(** vector aggregations with the operand directly in parentheses, with or without a leading integer parameter:
+    topk ( 3 , rate ( .. ) ), bottomk ( 1 , .. ), sort ( .. ), sort_desc ( .. ), sum ( .. )  -- [k] is the parameter token's text and
+    the integer strconv.Atoi read from it; validate() decides which operators take one *)
+Theorem vec_param_parse :
+  forall (anch : bytes -> bool) (re_names : bytes -> option (list bytes)) (cls : bytes -> ttype) (v : vectorop) (k : option (bytes * Z)) (o : rangeop)
+         (sel : list matcher) (sts : list stage) (rtxt : bytes) (rns : Z) (off : option (bytes * Z)),
+  vector_validate v (option_map snd k) None = true -> range_validate o None None false = true ->
+  Forall (wf_lmatcher anch cls) sel -> Forall (fun m => ttype_eqb (cls (m_label m)) TCloseBrace = false) sel ->
+  chain_ok anch re_names sts (print_range rtxt rns off ++ [plain TCloseParen (spelling TCloseParen); plain TCloseParen (spelling TCloseParen)]) ->
+  parse_tokens (print_vec_param anch re_names cls v k o sel sts rtxt rns off) =
+    Parsed (EVecAgg v (range_expr o sel sts rns off) (option_map snd k) None).
+Proof. exact vec_param_parse_lemma. Qed.
+Print Assumptions vec_param_parse.
+
+Example vec_param_example :
+  let anch := fun _ : bytes => true in
+  let rn := fun _ : bytes => Some (@nil bytes) in
+  let sel := [ {| m_label := ["a"%byte]; m_op := OpEq; m_value := ["x"%byte] |} ] in
+  let m5 := ["5"%byte; "m"%byte] in
+  vector_validate VectorOpTopk (Some 3) None = true /\ vector_validate VectorOpSort None None = true /\
+  parse_tokens (print_vec_param anch rn (fun _ => TIdent) VectorOpTopk (Some (["3"%byte], 3)) RangeOpRate sel [] m5 300000000000 None) =
+    Parsed (EVecAgg VectorOpTopk (range_expr RangeOpRate sel [] 300000000000 None) (Some 3) None) /\
+  parse_tokens (print_vec_param anch rn (fun _ => TIdent) VectorOpSort None RangeOpRate sel [] m5 300000000000 None) =
+    Parsed (EVecAgg VectorOpSort (range_expr RangeOpRate sel [] 300000000000 None) None None).
+Proof. repeat split; vm_compute; reflexivity. Qed.
+
 Theorem unwrap_agg_parse :
   forall (anch : bytes -> bool) (re_names : bytes -> option (list bytes)) (cls : bytes -> ttype) (o : rangeop)
          (sel : list matcher) (sts : list stage) (cv l rtxt : bytes) (rns : Z) (off : option (bytes * Z)) (g : option grouping),
